@@ -7,7 +7,17 @@ TRUSTED = ['expected expanded relations are computed from the generated document
 
 
 def tweak(rng, u):
+    import gendoc
     names = [n for n, _ in u['resources']]
+    if 'ba:2' in names and 'bb:1' in names and rng.random() < 0.8:
+        # two selected lexicons that depend on DIFFERENT versions of one id (bb:1 -> ba:1, bc:1 -> ba:2, sometimes a
+        # version that is not installed): the default expand set is the union of the installed dependencies
+        ilis = ['i%d' % i for i in range(1, 8)]
+        req = [{'id': 'ba', 'version': rng.choice(['2', '2', '9'])}]
+        bc = gendoc.gen_lexicon(rng, 'bc', '1', 'en', ilis, '1.1', size=3, requires=req)
+        u['resources'].append(('bc:1', {'lmf_version': '1.1', 'lexicons': [bc]}))
+        names.append('bc:1')
+        u.setdefault('_extra_cfgs', []).extend([{'lexicon': 'bb:1 bc:1'}, {'lexicon': 'bc:1 bb:1'}, {'lexicon': 'bc:1'}])
     cfgs = []
     for c in u['configs']:
         cfgs.append(c)
@@ -16,7 +26,7 @@ def tweak(rng, u):
     others = [n for n in names if n != base] or [base]
     cfgs += [{'lexicon': base}, {'lexicon': base, 'expand': ''}, {'lexicon': base, 'expand': rng.choice(others)},
              {'lexicon': base, 'expand': ' '.join(others[:2])}, {'lexicon': base, 'expand': '*'}, {'lexicon': 'bb:1'},
-             {'lexicon': 'bb'}, {}]
+             {'lexicon': 'bb'}, {}] + u.pop('_extra_cfgs', [])
     u['configs'] = cfgs
 
 
